@@ -2,12 +2,12 @@
   C11 — invalid build graphs are rejected before anything runs; valid ones are accepted.
   Property theorems only. Model: GrogModel/Analysis.lean, GrogModel/Paths.lean.
   Specification (`Spec.valid`, the property's list of defects): GrogModel/Lemmas/AnalysisSpec.lean.
-  Helper lemmas: GrogModel/Lemmas/{AnalysisGraph,Paths,AnalysisSpec,AnalysisCache,AnalysisConstraints}.lean.
+  Helper lemmas: GrogModel/Lemmas/{AnalysisGraph,Paths,AnalysisSpec,AnalysisCache,AnalysisConstraints,AnalysisOrder}.lean.
 
   `analyze ws ps` is what `grog build` / `grog check` decide about the packages `ps` in the workspace
   with root `ws` before anything is executed.
 -/
-import GrogModel.Lemmas.AnalysisConstraints
+import GrogModel.Lemmas.AnalysisOrder
 namespace Grog.C11
 open Grog Grog.Paths Grog.Analysis Grog.Analysis.Spec
 
@@ -142,6 +142,85 @@ example : isAbs exWs = true ∧ PkgRel exPs := by
   rcases ht with rfl | rfl <;> decide
 /-- … and without the dependency the same two targets are rejected -/
 example : analyze exWs [⟨[exA], []⟩, ⟨[{ exB with deps := [] }], []⟩] = .reject .conflict := by decide
+
+/-- **Order does not matter.** Two enumerations of the same nodes (packages, targets and aliases in any
+    order, grouped into package values in any way) get the same accept/reject verdict — Go iterates over
+    maps, the model over lists. -/
+theorem verdict_order_independent (ws : Bytes) (ps ps' : List Pkg) (hws : isAbs ws = true) (hpk : PkgRel ps)
+    (hp : (allNodes ps).Perm (allNodes ps')) :
+    analyze ws ps = .accept ↔ analyze ws ps' = .accept := by
+  have hm : ∀ n, n ∈ allNodes ps ↔ n ∈ allNodes ps' := fun n => hp.mem_iff
+  have hpk' : PkgRel ps' := fun t ht => hpk t ((hm _).mpr ht)
+  rw [accepts_iff_valid ws ps hws hpk, accepts_iff_valid ws ps' hws hpk']
+  constructor
+  · rintro ⟨hv, hc⟩
+    exact ⟨valid_perm ws hp hv, fun t ht => hc t ((hm _).mpr ht)⟩
+  · rintro ⟨hv, hc⟩
+    exact ⟨valid_perm ws hp.symm hv, fun t ht => hc t ((hm _).mp ht)⟩
+
+example : (allNodes exPs).Perm (allNodes exPs.reverse) := by decide
+
+/-- **A rejection names a defect that is present** (which one of several is reported may depend on the
+    order): the graph has a defect of the reported kind — or, for a reported output conflict, at least an
+    absolute output path (the conflict test runs before the path checks). -/
+theorem reject_names_present_defect (ws : Bytes) (ps : List Pkg) (hws : isAbs ws = true) (hpk : PkgRel ps)
+    (k : Kind) (h : analyze ws ps = .reject k) :
+    Spec.hasDefect ws (allNodes ps) k ∨
+      (k = .conflict ∧ Spec.hasDefect ws (allNodes ps) .outputEscape) := by
+  unfold analyze analyzeWith at h
+  rcases buildNodeMap_spec ps with ⟨hb, hnd⟩ | ⟨hb, hnd⟩
+  · rw [hb] at h
+    simp only at h
+    cases hg : buildGraph Cfg.current (allNodes ps) with
+    | some k' =>
+      simp only [hg, Verdict.reject.injEq] at h
+      subst h
+      unfold buildGraph at hg
+      cases he : edgeErrors (allNodes ps) with
+      | some k'' =>
+        simp only [he, Option.some.injEq] at hg
+        subst hg
+        rcases edgeErrors_some he with ⟨rfl, hd⟩ | ⟨rfl, hs⟩
+        · exact .inl hd
+        · exact .inl hs
+      | none =>
+        have hdef := (edgeErrors_none.mp he).1
+        simp only [he] at hg
+        have hfc := findCycle_spec (allNodes ps)
+        revert hfc hg
+        cases findCycle (allNodes ps) <;> simp only
+        · intro hg hc
+          simp only [Option.some.injEq] at hg; subst hg
+          exact .inl hc
+        · intro hg _
+          split at hg
+          · rename_i hcf
+            simp only [Option.some.injEq] at hg; subst hg
+            -- either all outputs are relative and the conflict is one of the specification, or one is absolute
+            by_cases habs : ∃ t, Node.target t ∈ allNodes ps ∧ ∃ o ∈ t.outs, o.kind ≠ .docker ∧ isAbs o.ident = true
+            · obtain ⟨t, ht, o, ho, hk, ha⟩ := habs
+              exact .inr ⟨rfl, t, ht, o, ho, hk, .inl ha⟩
+            · have hrel : RelOuts (allNodes ps) := by
+                refine ⟨hpk, ?_⟩
+                intro t ht o ho hk
+                cases hh : isAbs o.ident
+                · rfl
+                · exact absurd ⟨t, ht, o, ho, hk, hh⟩ habs
+              exact .inl ((conflict_iff _ hnd hdef hrel).mp hcf)
+          · cases hg
+        · intro _ hf; exact hf.elim
+    | none =>
+      simp only [hg] at h
+      cases hc : constraintErrors Cfg.current ws (allNodes ps) with
+      | nil => simp [hc] at h
+      | cons k' r =>
+        simp only [hc, Verdict.reject.injEq] at h
+        subst h
+        exact .inl (mem_constraintErrors hws (hc ▸ List.mem_cons_self))
+  · rw [hb] at h
+    simp only [Verdict.reject.injEq] at h
+    subst h
+    exact .inl hnd
 
 /-! ### nothing runs on reject -/
 
